@@ -19,6 +19,7 @@ INVARIANTS
   ChainLinked
   NextHeadersClean
   Shape
+  FastAgree
 PROPERTIES
   Finality
   NotWithheld
